@@ -7,7 +7,7 @@ from vlib import render as RR
 
 ID = "C11"
 # look-alikes of prelude names (vlib/defs.py HOSTILE) this check's derives are immune to on the unchanged tree
-HOSTILE_OK = ['From', 'Result', 'Some', 'Ok', 'Iterator', 'Clone', 'AsRef', 'Send', 'PhantomData', 'IterGet', 'm_matches', 'm_assert', 'm_fmt', 'c_binders']
+HOSTILE_OK = ['From', 'Result', 'Some', 'Ok', 'Iterator', 'Clone', 'AsRef', 'Send', 'PhantomData', 'IterGet', 'm_matches', 'm_assert', 'm_fmt', 'c_binders', 'ByValue']
 PROP_FILE = "Props/C11.v"
 RULE = ("definitions: enums with a default variant (tuple / single named field; inner String, Box<str>, a user type with From<&str>; "
         "declared first, in the middle, last; with or without spellings of its own) and/or transparent variants (tuple / named; inner "
